@@ -11,7 +11,7 @@ import (
 func init() {
 	Registry["C04"] = RuleDef{Module: ".", Run: runC04,
 		Technique:   "must-pass (post-dominance style) rules on every teardown path, sibling comparison of the multiplexer's request methods, pairing rule for the single-flight connect latch, guard rules on the stores' Close",
-		Explanation: "Decides that every wake-up mechanism the property lists is wired on every path: (R04a) after the reader exits, _background always closes the three subscription registries, swaps out and closes the Pub/Sub hook channel, closes the cache store, calls both invalidation callbacks with nil, drains the queue while calls are in flight, waits for the writer and publishes the final state; (R04b) _exit latches the error, closes the socket and runs the close hook on every path; (R04c) the failure arms of the synchronous paths latch the error, close the socket and start the background cleanup; (R04d) every request method of the multiplexer that uses a shared wire tests isBroken on its result and resets the slot to the initial wire, the blocking paths close an errored wire and always give it back, and the single-flight connect latch taken in _pipe is released on every path of its owner; (R04e) lru.Close / adapter.Close / subs.Close fail or close every pending waiter and disable further flights, and Flight creates no flight after Close; (R04f) the keep-alive watchdog turns a missing PONG into a deadline error and every unresolved error reaches _exit; (R04g) pipe.Close latches ErrClosing before changing state and always closes the socket and the secondary RESP2 Pub/Sub pipe; mux.Close marks every slot dead before closing the previous wire and both pools. (R04h-state) the connection state is written only by its owners - background (0->1), the workers' failure exit (1->2 on a lost connection), the worker's end (4) and Close (0->2/1->2) - and Close, when it moved the pipe to stopping, queues a PING behind the requests in flight and waits for it before closing the socket, so that a lifetime expiry or Close does not fail (and make the clients re-send) requests that were already written.",
+		Explanation: "Decides that every wake-up mechanism the property lists is wired on every path: (R04a) after the reader exits, _background always closes the three subscription registries, swaps out and closes the Pub/Sub hook channel, closes the cache store, calls both invalidation callbacks with nil, drains the queue while calls are in flight, waits for the writer and publishes the final state; (R04b) _exit latches the error, closes the socket and runs the close hook on every path; (R04c) the failure arms of the synchronous paths latch the error, close the socket and start the background cleanup; (R04d) every request method of the multiplexer that uses a shared wire tests isBroken on its result and resets the slot to the initial wire, the blocking paths close an errored wire and always give it back, and the single-flight connect latch taken in _pipe is released on every path of its owner; (R04e) lru.Close / adapter.Close / subs.Close fail or close every pending waiter and disable further flights, and Flight creates no flight after Close; (R04f) the keep-alive watchdog turns a missing PONG into a deadline error and every unresolved error reaches _exit; (R04g) pipe.Close latches ErrClosing before changing state and always closes the socket and the secondary RESP2 Pub/Sub pipe; mux.Close marks every slot dead before closing the previous wire and both pools. (R04h-state) the connection state is written only by its owners - background (0->1), the workers' failure exit (1->2 on a lost connection), the worker's end (4) and Close (0->2/1->2) - and Close, when it moved the pipe to stopping, queues a PING behind the requests in flight and waits for it before closing the socket, so that a lifetime expiry or Close does not fail (and make the clients re-send) requests that were already written. (R04i) the blocking-command marker consulted by the keep-alive watchdog is released on any reply and kept only on a transport error; (R04j) the hand-over to the background worker after a synchronous exchange is judged by the state seen on entry.",
 		NotDecided:  "that the peer's failure is detected by the OS/network; wake-up timing of Receive and blocking commands; interleavings between Close and in-flight calls."}
 }
 
@@ -369,6 +369,7 @@ func runC04(r *Report) {
 		}
 	}
 	stateTransitionRule(r, "R04h")
+	blockingMarkerRule(r)
 	// R04g
 	if fn := r.FnAnchor("R04g", P+"Close"); fn != nil {
 		var latch *Site
@@ -493,4 +494,82 @@ func stateTransitionRule(r *Report, rule string) {
 		}
 		r.Ob(rule, fn, "close-drains-before-closing-the-socket", fn.Pos(), fenced, "when Close moved the pipe to stopping it queues a PING behind the requests in flight and waits for it (bounded) before the socket is closed")
 	}
+}
+
+// blockingMarkerRule (R04i): the marker that tells the keep-alive watchdog "a blocking command is
+// outstanding on this connection" is released whenever the command's reply arrived - whatever the
+// reply says. Its release may depend on the transport error only (the `err` field), never on
+// RedisResult.Error(), which is also non-nil for a null reply or a Redis error reply: the marker
+// would stay raised on a healthy, reused connection and the watchdog would never fire again.
+// (R04j) after its synchronous exchange a caller hands over to the background worker when others
+// queued up meanwhile, judged by the state it saw when it chose the synchronous path: a fresh
+// read may observe Close's "stopping" and leave the queued callers without any worker.
+func blockingMarkerRule(r *Report) {
+	P := "rueidis.(*pipe)."
+	nRel := 0
+	for _, name := range []string{P + "Do", P + "DoMulti"} {
+		fn := r.FnAnchor("R04i", name)
+		if fn == nil {
+			continue
+		}
+		for _, cl := range fn.AnonFuncs {
+			var rel []Site
+			for _, s := range CallSites(cl, "sync/atomic.AddInt32") {
+				a := s.Call().Common().Args
+				if k, ok := ConstInt(a[1]); ok && k == -1 && strings.HasSuffix(DescDeep(a[0]), ".blcksig") {
+					rel = append(rel, s)
+				}
+			}
+			if len(rel) == 0 {
+				continue
+			}
+			nRel++
+			bad := ""
+			for _, b := range cl.Blocks {
+				iff, ok := b.Instrs[len(b.Instrs)-1].(*ssa.If)
+				if !ok {
+					continue
+				}
+				if DependsOn(iff.Cond, func(v ssa.Value) bool {
+					c, isc := v.(*ssa.Call)
+					return isc && (CalleeName(c) == "rueidis.(RedisResult).Error" || CalleeName(c) == "rueidis.(*RedisMessage).Error")
+				}) {
+					bad = "the release depends on RedisResult.Error(), which is also non-nil for null replies and Redis error replies"
+				}
+			}
+			r.Ob("R04i", cl, "blocking-marker-released-on-any-reply", cl.Pos(), bad == "", "the blocking-command marker is kept only when the transport failed; "+bad)
+		}
+		// R04j
+		var entryState ssa.Value
+		for _, s := range CallSites(fn, P+"syncDo", P+"syncDoMulti") {
+			for _, g := range DomGuards(s.Block) {
+				if x, op, y, ok := CmpGuard(g); ok && op == token.EQL && strings.Contains(DescDeep(x), ".state") {
+					if k, isc := ConstInt(y); isc && k == 0 {
+						entryState = x
+					}
+				}
+			}
+		}
+		for _, d := range CallSites(fn, P+"decrWaitsAndIncrRecvs") {
+			for _, s := range CallSites(fn, P+"background") {
+				if !Dominates(d, s) {
+					continue
+				}
+				same, seen := true, false
+				for _, g := range DomGuards(s.Block) {
+					if x, op, y, ok := CmpGuard(g); ok && op == token.EQL && strings.Contains(DescDeep(x), ".state") {
+						if k, isc := ConstInt(y); isc && k == 0 {
+							seen = true
+							if entryState == nil || x != entryState {
+								same = false
+							}
+						}
+					}
+				}
+				same = same && seen
+				r.ObSite("R04j", s, "handover-judged-by-entry-state", same, "the hand-over to the background worker after a synchronous exchange tests the state the caller saw on entry (a later state may already be Close's 'stopping', and then nobody would serve the callers queued behind it)")
+			}
+		}
+	}
+	r.Anchor("R04i", "blocking marker release closures (2)", nRel == 2)
 }
